@@ -1,6 +1,8 @@
 import TrionModel.Driver.Crc
 import TrionModel.Driver.Layout
 import TrionModel.Driver.Parse
+import TrionModel.Driver.Uf2
+import TrionModel.Driver.Trias
 /-! `trion-model`: one request per line on stdin, one reply per line on stdout.
 The first word selects the component; every request is self-contained (pure). -/
 open Trion.Driver
@@ -9,6 +11,8 @@ def dispatch : List String → String
   | "crc" :: r => Crc.handle r
   | "layout" :: r => Layout.handle r
   | "parse" :: r => Parse.handle r
+  | "uf2" :: r => Uf2.handle r
+  | "trias" :: r => Trias.handle r
   | ["ping"] => "pong"
   | _ => "bad-op"
 
